@@ -5,7 +5,7 @@ from pyvc.check import run_proofs, attach_bounded_witness
 MODS = ["contracts.c24_orderedset"]
 KEYS = ["OrderedSet.__init__", "OrderedSet.add", "OrderedSet.discard", "OrderedSet.update[0 iterables]", "OrderedSet.update[1 iterables]",
         "OrderedSet.update[2 iterables]", "OrderedSet.copy", "OrderedSet.__copy__", "OrderedSet.__len__", "OrderedSet.__contains__",
-        "OrderedSet.__iter__", "OrderedSet.__le__", "OrderedSet.__ge__", "ordered_intersect", "ordered_union", "ordered_diff"]
+        "OrderedSet.__iter__", "OrderedSet.__le__", "OrderedSet.__ge__"]
 
 
 def run(tier, seed):
@@ -21,7 +21,8 @@ def run(tier, seed):
         "OrderedSet.update proved for 0, 1 and 2 iterables (outer loop unrolled), any contents",
         "termination not proved",
     ]
-    run_proofs(rep, MODS, KEYS)
+    from contracts.c24_orderedset import HELPER_KEYS
+    run_proofs(rep, MODS, KEYS + HELPER_KEYS)
     from vlib.core import run_bounded
     run_bounded(rep, "cbc.c24", tier, seed, timeout_s=180 if tier == "quick" else 900)
     attach_bounded_witness(rep)
